@@ -772,6 +772,15 @@ def _normalise_function(fn: FuncNode) -> None:
                         out.append(ast.fix_missing_locations(ast.copy_location(ap, st)))
                     changed = True
                     continue
+                # N12  `f.writelines([a, b])`  ->  f.write(a); f.write(b)
+                if isinstance(st, ast.Expr) and isinstance(st.value, ast.Call) and isinstance(st.value.func, ast.Attribute) and st.value.func.attr == 'writelines' \
+                        and len(st.value.args) == 1 and isinstance(st.value.args[0], (ast.List, ast.Tuple)) and 0 < len(st.value.args[0].elts) <= 4 \
+                        and not any(isinstance(e, ast.Starred) for e in st.value.args[0].elts):
+                    for e in st.value.args[0].elts:
+                        w_ = ast.Expr(value=ast.Call(func=ast.Attribute(value=_copy.deepcopy(st.value.func.value), attr='write', ctx=ast.Load()), args=[_copy.deepcopy(e)], keywords=[]))
+                        out.append(ast.fix_missing_locations(ast.copy_location(w_, st)))
+                    changed = True
+                    continue
                 # N3 filter
                 if isinstance(st, ast.For) and isinstance(st.iter, ast.Call) and isinstance(st.iter.func, ast.Name) and st.iter.func.id == 'filter' \
                         and len(st.iter.args) == 2 and not st.iter.keywords and isinstance(st.target, ast.Name):
@@ -983,10 +992,10 @@ def _inline_module(tree: ast.Module) -> None:
                     if wa.args and wa.vararg and wa.kwarg and len(wa.args) == 1 and fn.args.args:
                         selfw, va, kw = wa.args[0].arg, wa.vararg.arg, wa.kwarg.arg
                         wbody = _doc_stripped(w.body)
-                        fw = [st for st in ast.walk(w) if isinstance(st, ast.Call) and isinstance(st.func, ast.Name) and st.func.id == fpar]
+                        fw = [st for b_ in w.body for st in ast.walk(b_) if isinstance(st, ast.Call) and isinstance(st.func, ast.Name) and st.func.id == fpar]
                         ok = len(fw) == 1 and [norm(a) for a in fw[0].args] == [selfw, f'*{va}'] and len(fw[0].keywords) == 1 and fw[0].keywords[0].arg is None \
                             and norm(fw[0].keywords[0].value) == kw
-                        other_uses = sum(1 for n in ast.walk(w) if isinstance(n, ast.Name) and n.id in (va, kw, fpar)) - 3
+                        other_uses = sum(1 for b_ in w.body for n in ast.walk(b_) if isinstance(n, ast.Name) and n.id in (va, kw, fpar)) - 3
                         if ok and other_uses == 0:
                             def place(stmts: T.List[ast.stmt]) -> T.Optional[T.List[ast.stmt]]:
                                 out: T.List[ast.stmt] = []
@@ -1068,8 +1077,18 @@ def _inline_module(tree: ast.Module) -> None:
             return False
         return rec(holder.body)
 
+    def drop_def(cls: T.Optional[ast.ClassDef], callee: FuncNode) -> None:
+        """The folded-back helper has no caller left: remove its definition so that no rule judges an orphan."""
+        owner = tree.body if cls is None else cls.body
+        if callee in owner:
+            owner.remove(callee)
+        if (cls, callee) in allfuncs:
+            allfuncs.remove((cls, callee))
+
     for _round in range(2):
         for cls, callee in list(allfuncs):
+            if (cls, callee) not in allfuncs:
+                continue
             name = callee.name
             if name.startswith('__') or not name.startswith('_'):
                 continue       # only private helpers (the product of an extract-function step) are folded back
@@ -1104,7 +1123,8 @@ def _inline_module(tree: ast.Module) -> None:
                 if (stored - set(pnames)) & hnames:
                     continue
                 new = [_relocate(x, stmt) for x in _subst_params(body, bound)]
-                replace_stmt(holder, stmt, new)
+                if replace_stmt(holder, stmt, new):
+                    drop_def(cls, callee)
             else:
                 # N11: for x in gen(...): BODY
                 loop = next((st for st in ast.walk(holder) if isinstance(st, ast.For) and st.iter is call and isinstance(st.target, ast.Name) and not st.orelse), None)
@@ -1125,7 +1145,8 @@ def _inline_module(tree: ast.Module) -> None:
                             [ast.Assign(targets=[ast.Name(id=loop.target.id, ctx=ast.Store())], value=e)]
                         st.body = st.body[:-1] + bind + loop.body
                 new = [ast.fix_missing_locations(_relocate_keep(x, loop)) for x in gbody]
-                replace_stmt(holder, loop, new)
+                if replace_stmt(holder, loop, new):
+                    drop_def(cls, callee)
 
 
 def _relocate_keep(node: ast.AST, at: ast.AST) -> ast.AST:
